@@ -720,7 +720,11 @@ class Replay:
         if "shape" in self.checks and not shape_ok:
             self.report("shape.rows", "%s with %d rows returned %r" % (op, m, type(value).__name__), skey, label)
             return
-        variants = b.sample(twin, m)
+        try:
+            variants = b.sample(twin, m)
+        except Exception:  # noqa: the internal attributes the documented sampler reads are not as the anchors describe them:
+            self.stats["projection_unavailable"] = self.stats.get("projection_unavailable", 0) + 1     # skipped and counted
+            return
         if op == "predict_expectations":
             if "shape" in self.checks:
                 for row in rows:
